@@ -59,6 +59,9 @@ void chk_describe(FILE *f);                            /* print the current scen
 extern const char *CHK_RULE;                           /* evidence "rule" text */
 
 int verif_main(int argc, char **argv);
+void verif_case_reset(void);
+extern bool ABORT_ON_VIOL;
+extern const uint8_t *FUZZ_DATA; extern size_t FUZZ_LEN, FUZZ_POS;
 
 /* violation of property `prop`, stable classification `key` */
 void viol(const char *prop, const char *key, const char *fmt, ...) __attribute__((format(printf, 3, 4)));
